@@ -496,6 +496,27 @@ class Kernel:
                     out.append(fd)
         return out
 
+    def kill(self, pname):
+        """The process is ended from outside (power loss, kill -9, a restart by the init system); its addresses become free."""
+        p = self.procs[pname]
+        if p.popen and p.popen.poll() is None:
+            try:
+                p.popen.kill()
+                p.popen.wait()
+            except OSError:
+                pass
+        p.exit_status = p.popen.returncode if p.popen else None
+        p.state = "exited"
+        p.gen += 1
+        try:
+            p.sock.close()
+        except OSError:
+            pass
+        for ip in list(self.by_ip):
+            if self.by_ip[ip] is p:
+                del self.by_ip[ip]
+        self.emit("killed", pname)
+
     def freeze(self, pname):
         """The process stops being scheduled (a suspended laptop, SIGSTOP): it stays in its select() for ever."""
         p = self.procs[pname]
